@@ -79,6 +79,24 @@ def directed(rng: random.Random, tier: str):
                     hs.round([(3, hs.publish(5000, b"payload!", src_mod=13))], [1, 3, 4], 1)
                 hs.round([(3, hs.publish(5001, b"after", src_mod=13))], [1, 3, 4], 2)
                 out.append(hs)
+    # a logger module outside the writable set (it subscribed to individual types / to ALL; alone or next to an ordinary
+    # subscriber that is outside too): it is waited for - it gets the message and no notice names it
+    for logger_sub in (5000, C.ALL):
+        for other_unwritable in (False, True):
+            for lvl in (60, 40):
+                hs = C.History(loglevel=lvl, tag="logger-waited-for")
+                for _ in range(4):
+                    hs.round([], [], 0, accept=True)
+                w = [1, 2, 3, 4]
+                hs.round([(1, hs.connect_v2(logger=1, mod_id=30))], w, 0)
+                hs.round([(1, hs.sub("sub", C.ALL))], w, 0)
+                hs.round([(2, hs.connect_v2(logger=1, mod_id=77)), (3, hs.connect_v1(src_mod=13)), (4, hs.connect_v1(src_mod=14))], w, 0)
+                hs.round([(2, hs.sub("sub", logger_sub, src_mod=77))], w, 0)
+                hs.round([(4, hs.sub("sub", 5000, src_mod=14))], w, 0)
+                for k in range(3):
+                    hs.round([(3, hs.publish(5000, bytes([k]) * 8, src_mod=13))], [1, 3] if other_unwritable else [1, 3, 4], 1 + k)
+                hs.round([(3, hs.publish(5000, b"after", src_mod=13))], w, 9)
+                out.append(hs)
     return out
 
 
